@@ -42,23 +42,20 @@ pub async fn main() -> anyhow::Result<()> {
 async fn startup(config: ServerConfig<SslConfig>) {
     match config.protocol {
         Protocol::Shadowsocks => shadowsocks::startup(&config).await,
-        Protocol::VMess => {
-            merge_result(tokio::join!(startup_quic(&config, &config, vmess::new_codec), startup_tcp(&config, &config, vmess::new_codec)))
-        }
-        Protocol::Trojan => {
-            merge_result(tokio::join!(startup_quic(&config, &config, trojan::new_codec), startup_tcp(&config, &config, trojan::new_codec)))
-        }
+        // a listener that cannot be started ends the whole entry (and is reported): try_join! does not wait for the other
+        // listener, which runs for ever, and drops it
+        Protocol::VMess => tokio::try_join!(
+            async { startup_quic(&config, &config, vmess::new_codec).await.map_err(|e| anyhow!("quic={e}")) },
+            async { startup_tcp(&config, &config, vmess::new_codec).await.map_err(|e| anyhow!("tcp={e}")) }
+        )
+        .map(|_| ()),
+        Protocol::Trojan => tokio::try_join!(
+            async { startup_quic(&config, &config, trojan::new_codec).await.map_err(|e| anyhow!("quic={e}")) },
+            async { startup_tcp(&config, &config, trojan::new_codec).await.map_err(|e| anyhow!("tcp={e}")) }
+        )
+        .map(|_| ()),
     }
     .unwrap_or_else(|e| error!("Startup {} failed; error={}", config.protocol, e));
-}
-
-fn merge_result(res: (anyhow::Result<()>, anyhow::Result<()>)) -> anyhow::Result<()> {
-    match res {
-        (Ok(_), Ok(_)) => Ok(()),
-        (Ok(_), Err(e)) => Err(anyhow!("tcp={e}")),
-        (Err(e), Ok(_)) => Err(anyhow!("quic={e}")),
-        (Err(e1), Err(e2)) => Err(anyhow!("quic={e1}, tcp={e2}")),
-    }
 }
 
 async fn startup_tcp<RefContext, Context, NewCodec, Codec>(
